@@ -489,11 +489,8 @@ def run():
         o2 = Obligation("Regex::new terminates normally on every regex of the shapes", "E2 mirsym/z3", fns)
         o2.verdict, o2.detail = "inconclusive", "unexpected end of Regex::new: %s" % json.dumps(other[0])[:300]
         rep.add(o2)
-    try:
-        from obligations import C16_dir
-        C16_dir.add(rep, ctx)
-    except ImportError:
-        pass
+    from obligations import C16_glob
+    C16_glob.add(rep, ctx)
     return rep
 
 
